@@ -96,6 +96,68 @@ def _variants(program):
     add('join-forgets-highlights', 'mutant', TEMPL, join_forgets_highlights,
         {'ROW-ALIGNED'})
 
+    def join_highlights_whole_lists(tree):
+        # F25 as shipped: highlights stacked as two lists of arrays
+        fun = find_func(tree, 'TableTemplate._binary_join')
+        for node in ast.walk(fun):
+            if isinstance(node, ast.Assign) and txt(node.targets[0]) == \
+                    'self.highlights':
+                node.value = parse_expr(
+                    'list(np.hstack(([np.atleast_1d(h) for h in '
+                    'self.highlights], [np.atleast_1d(h) for h in '
+                    'other.highlights])))')
+                return True
+        return False
+    add('join-highlights-stacked-as-whole-lists', 'mutant', TEMPL,
+        join_highlights_whole_lists, {'JOIN-AXIS'}, quick=True,
+        note='the F25 defect: N-d cells joined along another axis than the '
+             'columns')
+
+    def join_highlights_by_index(tree):
+        # seed C12-r2-1: column by column with hstack - the unit axis of
+        # the by-labels flags is joined instead of their rows
+        fun = find_func(tree, 'TableTemplate._binary_join')
+        for node in ast.walk(fun):
+            if isinstance(node, ast.Assign) and txt(node.targets[0]) == \
+                    'self.highlights':
+                node.value = parse_expr(
+                    '[np.hstack((np.atleast_1d(self.highlights[i]), '
+                    'np.atleast_1d(other.highlights[i]))) '
+                    'for i in range(len(self.highlights))]')
+                return True
+        return False
+    add('join-highlights-hstack-per-column', 'mutant', TEMPL,
+        join_highlights_by_index, {'JOIN-AXIS'},
+        note='flags of shape (n, 1) next to columns of shape (n,)')
+
+    def join_axis_inline(tree):
+        # twin: the axis computed in the comprehension, from the columns of
+        # the other table (same number of dimensions)
+        fun = find_func(tree, 'TableTemplate._binary_join')
+        for node in ast.walk(fun):
+            if isinstance(node, ast.Assign) and txt(node.targets[0]) == \
+                    'self.highlights':
+                node.value = parse_expr(
+                    '[np.concatenate((np.atleast_1d(hself), '
+                    'np.atleast_1d(hother)), axis=0 if np.ndim(col) < 2 '
+                    'else 1) for hself, hother, col in zip(self.highlights, '
+                    'other.highlights, other.columns)]')
+                return True
+        return False
+    add('twin-join-axis-computed-inline', 'twin', TEMPL, join_axis_inline)
+
+    def join_columns_by_zip(tree):
+        fun = find_func(tree, 'TableTemplate._binary_join')
+        for node in ast.walk(fun):
+            if isinstance(node, ast.Assign) and txt(node.targets[0]) == \
+                    'self.columns':
+                node.value = parse_expr(
+                    'tuple(np.hstack((cself, cother)) for cself, cother in '
+                    'zip(self.columns, other.columns))')
+                return True
+        return False
+    add('twin-join-columns-by-zip', 'twin', TEMPL, join_columns_by_zip)
+
     def stats_short_column(tree):
         fun = find_func(tree, 'repr_testresultstats')
         return remove_stmt(fun, lambda s: isinstance(s, ast.Expr) and
